@@ -20,6 +20,8 @@ import (
 	"os"
 	"reflect"
 	"runtime"
+	"runtime/debug"
+	"runtime/pprof"
 	"sort"
 	"strings"
 	"time"
@@ -83,6 +85,7 @@ var hung bool
 
 func stopIfHung(c *Config) {
 	if hung {
+		removeHibDir()
 		c.Close()
 		os.Exit(0)
 	}
@@ -110,7 +113,7 @@ type bdChange struct {
 }
 
 type bdOp struct {
-	kind         string // consume | fork
+	kind         string // consume | fork | hib | boot
 	copy, n      int
 	author, tick int
 	merge        bool
@@ -133,6 +136,9 @@ func (o bdOp) sx() Sx {
 	if o.kind == "fork" {
 		return T("fork", I(o.copy), I(o.n))
 	}
+	if o.kind == "hib" || o.kind == "boot" {
+		return T(o.kind, I(o.copy))
+	}
 	xs := []Sx{I(o.copy), I(o.author), I(o.tick), B(o.merge)}
 	for _, ch := range o.chs {
 		xs = append(xs, ch.sx())
@@ -144,6 +150,9 @@ func parseBdOp(s Sx) bdOp {
 	a := s.Args()
 	if s.Tag() == "fork" {
 		return bdOp{kind: "fork", copy: a[0].Int(), n: a[1].Int()}
+	}
+	if s.Tag() == "hib" || s.Tag() == "boot" {
+		return bdOp{kind: s.Tag(), copy: a[0].Int()}
 	}
 	o := bdOp{kind: "consume", copy: a[0].Int(), author: a[1].Int(), tick: a[2].Int(), merge: a[3].Int() != 0}
 	for _, c := range a[4:] {
@@ -227,8 +236,23 @@ func (o bdOp) deps() map[string]interface{} {
 	}
 }
 
-func newAnalysis(people, track bool) *leaves.BurndownAnalysis {
-	a := &leaves.BurndownAnalysis{Granularity: 30, Sampling: 30, TickSize: 24 * time.Hour, TrackFiles: track}
+// bdCfg is the configuration of one bd case: people tracking, TrackFiles, the hibernation threshold and
+// whether hibernated arenas go to disk (kinds bdh*, bds*), and whether tracked files are recorded run-length
+// encoded (the large cases).
+type bdCfg struct {
+	people, track bool
+	hth           int
+	hdisk         bool
+	rle           bool
+}
+
+func newAnalysis(cfg bdCfg) *leaves.BurndownAnalysis {
+	people, track := cfg.people, cfg.track
+	a := &leaves.BurndownAnalysis{Granularity: 30, Sampling: 30, TickSize: 24 * time.Hour, TrackFiles: track,
+		HibernationThreshold: cfg.hth, HibernationToDisk: cfg.hdisk}
+	if cfg.hdisk {
+		a.HibernationDirectory = hibDir()
+	}
 	if people {
 		a.PeopleNumber = 3
 	}
@@ -253,12 +277,15 @@ func cells(tag string, cs []leaves.VerifC08Cell) Sx {
 	return T(tag, xs...)
 }
 
-func bdCopySx(a *leaves.BurndownAnalysis) (res Sx) {
+func bdCopySx(a *leaves.BurndownAnalysis, rle bool) (res Sx) {
 	defer func() {
 		if r := recover(); r != nil {
 			res = T("c", A("broken"))
 		}
 	}()
+	if bdAsleep(a) {
+		return bdHibImage(a)
+	}
 	tick, prev, ma := a.VerifC08Scalars()
 	mf := a.VerifC08MergedFiles()
 	var mfk []int
@@ -278,7 +305,11 @@ func bdCopySx(a *leaves.BurndownAnalysis) (res Sx) {
 	var fs []Sx
 	for _, id := range ids {
 		arr, _ := a.VerifC08Flatten(fname(id))
-		fs = append(fs, L(append([]Sx{I(id)}, Ints(arr).List...)...))
+		if rle {
+			fs = append(fs, rleSx(id, arr))
+		} else {
+			fs = append(fs, L(append([]Sx{I(id)}, Ints(arr).List...)...))
+		}
 	}
 	return T("c", I(a.VerifC08Used()), I(tick), I(prev), I(ma), T("mf", mfs...), T("files", fs...))
 }
@@ -309,25 +340,36 @@ func bdSharedSx(a *leaves.BurndownAnalysis) Sx {
 }
 
 type bdRunner struct {
+	cfg    bdCfg
 	copies []*leaves.BurndownAnalysis
 	last   []string
 	lens   []map[int]int // tracked file lengths per copy, refreshed by every snapshot (for the generator)
+	asleep []bool        // the copy is hibernated (refreshed by every snapshot)
 	obs    []Sx
 	failed bool
 }
 
-func newBdRunner(people, track bool) *bdRunner {
-	return &bdRunner{copies: []*leaves.BurndownAnalysis{newAnalysis(people, track)}, last: []string{""}}
+func newBdRunner(cfg bdCfg) *bdRunner {
+	return &bdRunner{cfg: cfg, copies: []*leaves.BurndownAnalysis{newAnalysis(cfg)}, last: []string{""}}
 }
 
 // observe snapshots every copy; target = the copy the operation ran on (-1: none); a copy that existed
 // before and is not the target must not change: if it does the case stops here (its trees may be corrupt).
 func (r *bdRunner) observe(result string, target int, existing int) {
 	var cs []Sx
+	oldLens := r.lens
 	r.lens = make([]map[int]int, len(r.copies))
+	r.asleep = make([]bool, len(r.copies))
 	for i, a := range r.copies {
-		s := bdCopySx(a)
+		s := bdCopySx(a, r.cfg.rle)
 		str := s.String()
+		if s.Tag() == "hib" {
+			// a hibernated copy cannot be read: the generator keeps what it knew
+			r.asleep[i] = true
+			if i < len(oldLens) {
+				r.lens[i] = oldLens[i]
+			}
+		}
 		if str == r.last[i] {
 			cs = append(cs, A("="))
 		} else {
@@ -337,10 +379,21 @@ func (r *bdRunner) observe(result string, target int, existing int) {
 			}
 			r.last[i] = str
 		}
+		if r.asleep[i] {
+			continue
+		}
 		r.lens[i] = map[int]int{}
 		if f, ok := s.Field("files"); ok {
 			for _, e := range f.Args() {
-				r.lens[i][e.List[0].Int()] = len(e.List) - 1
+				if r.cfg.rle {
+					n := 0
+					for _, run := range e.List[1:] {
+						n += run.List[1].Int()
+					}
+					r.lens[i][e.List[0].Int()] = n
+				} else {
+					r.lens[i][e.List[0].Int()] = len(e.List) - 1
+				}
 			}
 		}
 	}
@@ -374,14 +427,43 @@ func (r *bdRunner) apply(o bdOp) (string, int) {
 		return "skip", -1
 	}
 	if o.kind == "fork" {
-		if o.n < 0 || len(r.copies)+o.n > 3*maxCopies {
+		limit := 3 * maxCopies
+		if r.cfg.rle {
+			limit = 1 << 16 // the large cases keep many branches alive
+		}
+		if o.n < 0 || len(r.copies)+o.n > limit {
 			return "skip", -1
 		}
-		for _, it := range r.copies[o.copy].Fork(o.n) {
+		var clones []c08.PipelineItem
+		if _, panicked := Catch(func() { clones = r.copies[o.copy].Fork(o.n) }); panicked {
+			// forking a hibernated copy (only a shrunk or hand-written operation list does that)
+			r.failed = true
+			return "panic", -1
+		}
+		for _, it := range clones {
 			r.copies = append(r.copies, it.(*leaves.BurndownAnalysis))
 			r.last = append(r.last, "")
 		}
 		return "fork", -1
+	}
+	if o.kind == "hib" || o.kind == "boot" {
+		var err error
+		_, panicked := Catch(func() {
+			if o.kind == "hib" {
+				err = r.copies[o.copy].Hibernate()
+			} else {
+				err = r.copies[o.copy].Boot()
+			}
+		})
+		switch {
+		case panicked:
+			r.failed = true
+			return "panic", o.copy
+		case err != nil:
+			r.failed = true
+			return "err", o.copy
+		}
+		return "ok", o.copy
 	}
 	var err error
 	msg, panicked := Catch(func() { _, err = r.copies[o.copy].Consume(o.deps()) })
@@ -600,7 +682,7 @@ func genBdChanges(rng *rand.Rand, lens map[int]int, merge bool, clean bool) []bd
 	return chs
 }
 
-func emitBd(c *Config, kind string, people, track bool, ops []bdOp, r *bdRunner) {
+func emitBd(c *Config, kind string, cfg bdCfg, ops []bdOp, r *bdRunner) {
 	var os_ []Sx
 	forks, after := 0, 0
 	for _, o := range ops {
@@ -611,7 +693,15 @@ func emitBd(c *Config, kind string, people, track bool, ops []bdOp, r *bdRunner)
 			after++
 		}
 	}
-	c.Emit(T("kind", A(kind)), T("nt", B(forks > 0 && after > 0)), T("people", B(people)), T("track", B(track)), T("ops", os_...), T("obs", r.obs...))
+	fs := []Sx{T("kind", A(kind)), T("nt", B(forks > 0 && after > 0)), T("people", B(cfg.people)), T("track", B(cfg.track))}
+	if strings.HasPrefix(kind, "bdh") || strings.HasPrefix(kind, "bds") {
+		fs = append(fs, T("hth", I(cfg.hth)), T("hdisk", B(cfg.hdisk)))
+	}
+	if cfg.rle {
+		fs = append(fs, T("rle", B(true)))
+	}
+	c.Emit(append(fs, T("ops", os_...), T("obs", r.obs...))...)
+	cleanHibDir()
 	stopIfHung(c)
 }
 
@@ -620,7 +710,7 @@ func randomBd(c *Config) {
 	people := rng.Intn(2) == 0
 	track := rng.Intn(2) == 0
 	clean := rng.Intn(100) < 70 // no irregular input at all in 70 % of the cases
-	r := newBdRunner(people, track)
+	r := newBdRunner(bdCfg{people: people, track: track})
 	var ops []bdOp
 	tick := 0
 	do := func(o bdOp) {
@@ -664,7 +754,7 @@ func randomBd(c *Config) {
 		lens := r.lensOf(i)
 		do(bdOp{kind: "consume", copy: i, author: author(), tick: t, merge: merge, chs: genBdChanges(rng, lens, merge, clean)})
 	}
-	emitBd(c, "bd", people, track, ops, r)
+	emitBd(c, "bd", r.cfg, ops, r)
 }
 
 // exhaustive small scope: one file of 3 lines, three copies, every sequence of two commits out of a
@@ -703,11 +793,11 @@ func exhaustiveBd(c *Config, people, track bool) {
 				}
 				ops = append(ops, bdOp{kind: "consume", copy: z / len(alphabet), author: a, tick: 1 + k, chs: alphabet[z%len(alphabet)]})
 			}
-			r := newBdRunner(people, track)
+			r := newBdRunner(bdCfg{people: people, track: track})
 			for _, o := range ops {
 				r.exec(o)
 			}
-			emitBd(c, "bdex", people, track, ops, r)
+			emitBd(c, "bdex", r.cfg, ops, r)
 		}
 	}
 }
@@ -723,15 +813,25 @@ func replayBd(c *Config, cs Sx) {
 	if tf, ok := cs.Field("track"); ok {
 		track = tf.Args()[0].Int() != 0
 	}
+	cfg := bdCfg{people: people, track: track}
+	if hf, ok := cs.Field("hth"); ok {
+		cfg.hth = hf.Args()[0].Int()
+	}
+	if hf, ok := cs.Field("hdisk"); ok {
+		cfg.hdisk = hf.Args()[0].Int() != 0
+	}
+	if hf, ok := cs.Field("rle"); ok {
+		cfg.rle = hf.Args()[0].Int() != 0
+	}
 	f, _ := cs.Field("ops")
 	var ops []bdOp
-	r := newBdRunner(people, track)
+	r := newBdRunner(cfg)
 	for _, o := range f.Args() {
 		op := parseBdOp(o)
 		ops = append(ops, op)
 		r.exec(op)
 	}
-	emitBd(c, kind, people, track, ops, r)
+	emitBd(c, kind, cfg, ops, r)
 }
 
 // =====================================================================================================
@@ -1465,15 +1565,64 @@ func replayPl(c *Config, cs Sx) {
 
 // =====================================================================================================
 
+// hibStreams: Hibernate / Boot between the forks (kinds bdhex, bdh).
+func hibStreams(c *Config) {
+	for _, disk := range []bool{false, true} {
+		for _, pre := range []bool{false, true} {
+			exhaustiveBdHib(c, disk, 0, pre, 1, 4)
+			if c.Thorough() {
+				exhaustiveBdHib(c, disk, 0, pre, 1, 5)
+				exhaustiveBdHib(c, disk, 0, pre, 2, 4)
+			}
+		}
+	}
+	// the threshold right above the arena (4 nodes): nothing is ever hibernated; at the arena size
+	exhaustiveBdHib(c, true, 5, true, 1, 3)
+	exhaustiveBdHib(c, true, 4, true, 1, 3)
+	for i := c.Count(700, 30000); i > 0; i-- {
+		randomBdHib(c)
+	}
+}
+
+// scaleStreams: the large cases (kinds bds-*).
+func scaleStreams(c *Config) {
+	for i, shape := range []string{"rnd", "asc", "desc"} {
+		scaleBigFile(c, 1000+7+i, i%2 == 0, shape)
+		scaleBigFile(c, 10000+1+i, i%2 == 1, shape)
+	}
+	scaleManyFiles(c, 1000+3, true)
+	scaleManyCopies(c, 100, 5, true)
+	scaleManyCopies(c, 64, 2, false)
+	if c.Thorough() {
+		for i, shape := range []string{"rnd", "asc", "desc"} {
+			scaleBigFile(c, 100000+3+i, i%2 == 0, shape)
+		}
+		scaleBigFile(c, 1000000+5, true, "rnd")
+		scaleManyFiles(c, 10000+7, true)
+		scaleManyFiles(c, 65536+1, false)
+		scaleManyCopies(c, 1000, 5, true)
+		scaleManyCopies(c, 1000, 3, false)
+	}
+}
+
 func main() {
 	c := Setup()
 	defer c.Close()
+	// the traces are built from many small short-lived values: collect less often (the live heap is a few MB;
+	// the memory watchdog above stays in force)
+	debug.SetGCPercent(400)
+	if pf := os.Getenv("C08_PROF"); pf != "" {
+		f, _ := os.Create(pf)
+		pprof.StartCPUProfile(f)
+		defer pprof.StopCPUProfile()
+	}
 	// hercules loggers capture os.Stderr when they are created: keep the trace run quiet
 	realStderr := os.Stderr
 	if dn, err := os.OpenFile(os.DevNull, os.O_WRONLY, 0); err == nil {
 		os.Stderr = dn
 	}
 	if c.Replay != "" {
+		defer removeHibDir()
 		for _, cs := range c.ReplayCases() {
 			kind := ""
 			if k, ok := cs.Field("kind"); ok {
@@ -1493,7 +1642,20 @@ func main() {
 		}
 		return
 	}
+	defer removeHibDir()
+	if only := os.Getenv("C08_ONLY"); only == "hib" || only == "scale" {
+		if only == "hib" {
+			hibStreams(c)
+		} else {
+			scaleStreams(c)
+		}
+		return
+	}
 	if os.Getenv("C08_ONLY") == "" {
+		hibStreams(c)
+		if c.Tier != "search" {
+			scaleStreams(c)
+		}
 		exhaustiveBd(c, false, false)
 		exhaustiveBd(c, true, true)
 		if c.Thorough() {
